@@ -250,6 +250,7 @@ class Executor:
         self.trivial_obligations = 0
         self.hints = []
         self.mir_text = None
+        self._promoted_cache = {}
         self.global_cells = {}  # lazily materialised initial memory behind references
 
     # ---- solver -------------------------------------------------------------
@@ -547,27 +548,48 @@ class Executor:
             return VInt(z3.BitVecVal(int(text), bits), bits, signed)
         if text == "()":
             return VUnit()
-        if "::promoted[" in text and self.mir_text:
+        if ty == "char" or (text.startswith("'") and text.endswith("'")):
+            body = text[1:-1]
+            esc = {"\\n": 10, "\\t": 9, "\\r": 13, "\\0": 0, "\\\\": 92, "\\'": 39}
+            if body in esc:
+                return VInt(z3.BitVecVal(esc[body], 32), 32, False)
+            m2 = re.fullmatch(r"\\u\{([0-9a-fA-F]+)\}", body)
+            if m2:
+                return VInt(z3.BitVecVal(int(m2.group(1), 16), 32), 32, False)
+            if len(body) == 1:
+                return VInt(z3.BitVecVal(ord(body), 32), 32, False)
+        if "::promoted[" in text:
             v = self.promoted(text)
             if v is not None:
                 return v
         return VOpaque(t or "?", "const:" + text)
 
     def promoted(self, text):
-        """Value of a promoted constant such as `&&0_usize` (looked up in the MIR dump)."""
+        """Value of a promoted constant (its MIR body is executed)."""
         name = re.sub(r"::<[^>]*>", "", text.strip())
-        m = re.search(r"^const %s: ([^=]+) = \{(.*?)^\}" % re.escape(name), self.mir_text, re.S | re.M)
-        if not m:
+        fn = self.funcs.get("const " + name)
+        if fn is None:
             return None
-        ty, body = m.group(1).strip(), m.group(2)
-        lit = re.search(r"= const (-?\d+)_(\w+);", body)
-        if not lit or lit.group(2) not in INT_TYPES:
+        if name in self._promoted_cache:
+            return self._promoted_cache[name]
+        st = State()
+        outs = self.exec_function(fn, {}, st)
+        if len(outs) != 1:
             return None
-        bits, signed = INT_TYPES[lit.group(2)]
-        v = VInt(z3.BitVecVal(int(lit.group(1)), bits), bits, signed)
-        depth = len(re.match(r"^(&(?:'\w+ )?)*", ty).group(0).replace("'static ", "").replace(" ", ""))
-        for _ in range(ty.count("&")):
-            v = VRef("val", v)
+        s2, v = outs[0]
+        # references inside a promoted value point into its own frame: resolve them to values
+        v = self._freeze(s2, v)
+        self._promoted_cache[name] = v
+        return v
+
+    def _freeze(self, st, v, depth=0):
+        if isinstance(v, VRef) and depth < 6:
+            try:
+                return VRef("val", self._freeze(st, self.deref(st, v), depth + 1))
+            except PathEnd:
+                return v
+        if isinstance(v, VAgg):
+            return VAgg(v.path, v.variant, [self._freeze(st, x, depth + 1) for x in v.fields], v.names)
         return v
 
     def operand(self, st, frame, op, f, want_ty=None):
